@@ -122,6 +122,11 @@ package runtime
 // watched text file, see C16): the error of the underlying write is returned.
 //@ func WriteString [C10, C16]
 //@   requires index >= 1
+// C16: outside development mode the literal compiled into the program is written; in development mode line
+// index-1 of the watched text file, unquoted as a Go string literal body, is written instead
+//@   let LITS = literals @ before strconv.Unquote#1
+//@   ensures {C16} implies(!developmentMode && err == nil, doc(w) == cat(old(doc(w)), s))
+//@   ensures {C16} implies(developmentMode && err == nil, index <= len(ghost(LITS)) && doc(w) == cat(old(doc(w)), unquoted(cat("\"", ghost(LITS)[index-1], "\""))))
 //@   modifies doc(w), failedDuring
 //@   ensures isPrefix(old(sink(w)), sink(w))
 //@   ensures implies(err == nil, isPrefix(old(doc(w)), doc(w)) && failedDuring == old(failedDuring))
